@@ -179,3 +179,59 @@ Print Assumptions C01_batch_inversion_zero_panics.
 Example C01_batch_inversion_nonvacuous :
   Forall canon [bfe_new 2; bfe_new 3] /\ Forall (fun x => x <> 0) [bfe_new 2; bfe_new 3].
 Proof. split; repeat constructor; try discriminate; vm_compute; reflexivity. Qed.
+
+(* ---------------------------------------------------------------- the extension field as a field (proofs/XFieldOk.v)
+   Fp3 = Fp x Fp x Fp with the product of Fp[X]/(X^3 - X + 1) is a field `k3_field` (lib/FieldTheory.v: fieldK, the ring
+   axioms are polynomial identities, the inverse law is C01_norm_nonzero), and the operations record of XFieldElement
+   refines it: canon3 = representation invariant, denX (a, b, c) = (bden a, bden b, bden c) = fp3_of (val3 (a, b, c)). *)
+From TF Require Import FieldOps FieldTheory BFieldOk XFieldOk.
+Theorem C01_k3_mul_is_vmul3 : forall s t, fp3_of (vmul3 s t) = kmul k3_field (fp3_of s) (fp3_of t).
+Proof. exact fp3_of_vmul3. Qed.
+Print Assumptions C01_k3_mul_is_vmul3.
+Theorem C01_denX_is_val3 : forall x, denX x = fp3_of (val3 x).
+Proof. exact denX_val3. Qed.
+Print Assumptions C01_denX_is_val3.
+Theorem C01_xfe_field_ok : field_ok xfe_ops k3_field canon3 denX.
+Proof. exact xfe_field_ok. Qed.
+Print Assumptions C01_xfe_field_ok.
+
+(* ModPowU64::mod_pow_u64 on XFieldElement = the repeated product, for EVERY u64 exponent (0^0 = 1 included) *)
+Theorem C01_xpow : forall x e, canon3 x -> 0 <= e < 2 ^ 64 ->
+  canon3 (xpow x e) /\ denX (xpow x e) = kpow k3_field (denX x) (Z.to_nat e).
+Proof. exact xpow_repeated_product. Qed.
+Print Assumptions C01_xpow.
+Example C01_xpow_ex : canon3 (xlift (bfe_new 7)) /\ 0 <= 18446744073709551615 < 2 ^ 64.
+Proof. split; [repeat split; vm_compute; (discriminate || reflexivity)|split; [discriminate|reflexivity]]. Qed.
+
+(* the inverse is unique: ANY canonical y with y * x = 1 is what `inverse` returns *)
+Theorem C01_xinverse_unique : forall x y, canon3 x -> canon3 y ->
+  red3 (vmul3 (val3 y) (val3 x)) = (1, 0, 0) -> xinverse x = Some y.
+Proof. exact xinverse_unique. Qed.
+Print Assumptions C01_xinverse_unique.
+
+(* XFieldElement::batch_inversion is point-wise inversion (instance of BatchInvProofs.batch_inversion_spec) *)
+Theorem C01_xbatch_inversion : forall l, Forall canon3 l -> Forall (fun x => x <> xzero) l ->
+  exists r, xbatch_inversion l = Some r /\
+            Forall2 (fun x y => canon3 y /\ xmul y x = xone /\ xinverse x = Some y) l r.
+Proof. exact xbatch_inversion_spec. Qed.
+Print Assumptions C01_xbatch_inversion.
+Theorem C01_xbatch_inversion_zero_panics : forall l, In xzero l -> xbatch_inversion l = None.
+Proof. exact xbatch_inversion_zero_panics. Qed.
+Print Assumptions C01_xbatch_inversion_zero_panics.
+Example C01_xbatch_inversion_nonvacuous :
+  Forall canon3 [xlift (bfe_new 2); (bfe_new 1, bfe_new 2, bfe_new 3)] /\
+  Forall (fun x => x <> xzero) [xlift (bfe_new 2); (bfe_new 1, bfe_new 2, bfe_new 3)].
+Proof. split; repeat constructor; try discriminate; vm_compute; reflexivity. Qed.
+
+(* `XFieldElement * BFieldElement` is the product with the lift; the lift is a field embedding of the base field *)
+Theorem C01_xscale_is_mul_by_lift : forall x k, canon3 x -> canon k -> xscale x k = xmul x (xlift k).
+Proof. exact xscale_is_xmul_xlift. Qed.
+Print Assumptions C01_xscale_is_mul_by_lift.
+Theorem C01_xlift_embedding :
+  (forall b, canon b -> canon3 (xlift b) /\ denX (xlift b) = iota (bden b)) /\
+  iota (k0 fp_field) = k0 k3_field /\ iota (k1 fp_field) = k1 k3_field /\
+  (forall a b, iota (kadd fp_field a b) = kadd k3_field (iota a) (iota b)) /\
+  (forall a b, iota (kmul fp_field a b) = kmul k3_field (iota a) (iota b)) /\
+  (forall a b, iota a = iota b -> a = b).
+Proof. exact (conj denX_xlift (conj iota_0 (conj iota_1 (conj iota_add (conj iota_mul iota_inj))))). Qed.
+Print Assumptions C01_xlift_embedding.
